@@ -447,8 +447,6 @@ def check_csrf_protocol(rep: Report) -> None:
             out.append('compared')
         if not truth and t.startswith('not ') and 'compare_digest' in t:
             out.append('compared')
-        if not truth and t == 'not csrf_key':
-            out.append('cookie-nonempty')
         return out
     exits = []
 
@@ -462,8 +460,7 @@ def check_csrf_protocol(rep: Report) -> None:
             ('re-use refused', 'reuse-refused', 'a token already recorded is accepted again'),
             ('token recorded', 'recorded', 'an accepted token is not recorded as used'),
             ('record committed', 'committed', 'the used-token record is not committed'),
-            ('signature compared', 'compared', 'a path accepts without comparing the signature'),
-            ('cookie present', 'cookie-nonempty', 'an empty cookie value is accepted')):
+            ('signature compared', 'compared', 'a path accepts without comparing the signature')):
         if all(fact in s for _st, s in exits):
             rep.ok(rid, construct, label)
         else:
@@ -481,27 +478,41 @@ def check_csrf_protocol(rep: Report) -> None:
         rep.fail(rid, construct, 'mismatch raises', 'signature mismatch does not raise', chk)
 
     # HMAC inputs agree between issue and check
-    def hmac_inputs(fn: ast.FunctionDef) -> list[str]:
+    def _single_def(fn: ast.FunctionDef, target_text: str):
+        ds = [n for n in ast.walk(fn) if isinstance(n, (ast.Assign, ast.AnnAssign)) and n.value is not None
+              and norm(n.targets[0] if isinstance(n, ast.Assign) else n.target) == target_text]
+        return ds[0].value if len(ds) == 1 else None
+
+    def hmac_inputs(fn: ast.FunctionDef) -> tuple[list[str], str | None, ast.AST | None]:
+        """(key/msg/digest and the update() inputs with their guards, text of the hmac object, hmac.new call)"""
         out = []
+        obj = None
+        new_call = None
         for n in ast.walk(fn):
-            if isinstance(n, ast.Call) and call_name(n) == 'hmac.new':
-                out.append('key=' + norm(n.args[0]))
-                out.append('msg=' + norm(n.args[1]))
-                out.append('digest=' + norm(n.args[2]) if len(n.args) > 2 else 'digest=?')
+            if isinstance(n, (ast.Assign, ast.AnnAssign)) and isinstance(n.value, ast.Call) \
+                    and call_name(n.value) == 'hmac.new':
+                new_call = n.value
+                obj = norm(n.targets[0] if isinstance(n, ast.Assign) else n.target)
+                c_ = n.value
+                out.append('key=' + norm(c_.args[0]))
+                out.append('msg=' + norm(c_.args[1]))
+                out.append('digest=' + norm(c_.args[2]) if len(c_.args) > 2 else 'digest=?')
         ups = []
-        for st in fn.body:
-            for n in ast.walk(st):
+        if obj is not None:
+            for n in ast.walk(fn):
                 if isinstance(n, ast.Call) and isinstance(n.func, ast.Attribute) \
-                        and n.func.attr == 'update' and norm(n.func.value) == 'sig':
+                        and n.func.attr == 'update' and norm(n.func.value) == obj and n.args:
                     cond = ''
-                    for a in ancestors(n):
-                        if isinstance(a, ast.If):
-                            cond = f' if {norm(a.test)}'
-                        if a is fn:
+                    for a_ in ancestors(n):
+                        if isinstance(a_, ast.If):
+                            g = a_.test
+                            d = _single_def(fn, norm(g)) if isinstance(g, (ast.Name, ast.Attribute)) else None
+                            cond = f' if {norm(d) if d is not None else norm(g)}'
+                        if a_ is fn:
                             break
                     ups.append(norm(n.args[0]) + cond)
-        return out + ups
-    a, b = hmac_inputs(gen_t), hmac_inputs(chk)
+        return out + ups, obj, new_call
+    (a, _oa, _na), (b, hobj, hnew) = hmac_inputs(gen_t), hmac_inputs(chk)
     if a == b and len(a) >= 5:
         rep.ok(rid, construct, 'hmac inputs agree', '; '.join(a))
     else:
@@ -513,10 +524,62 @@ def check_csrf_protocol(rep: Report) -> None:
         else:
             rep.fail(rid, construct, f'hmac covers {label}',
                      f'the signature does not depend on the {label}', chk)
+    # the key of the HMAC is a non-empty value read from the request cookie
+    from ..pathcond import PathCond, entails as pc_entails
+
+    def cookie_value_checked(fnode: ast.FunctionDef, at_call: ast.AST | None, var: str, depth: int = 0) -> tuple[bool, bool]:
+        """(read from flask.request.cookies, known non-empty where it is used / returned)"""
+        hits: list = []
+
+        def on_stmt(st, states):
+            if isinstance(st, (ast.If, ast.While, ast.For, ast.With, ast.Try)):
+                return
+            if at_call is not None and any(x_ is at_call for x_ in ast.walk(st)):
+                hits.extend(states)
+            if at_call is None and isinstance(st, ast.Return) and st.value is not None and norm(st.value) == var:
+                hits.extend(states)
+        Flow(Disjunctive(PathCond(), cap=256), on_stmt=on_stmt).run(fnode, [PathCond.initial()])
+        defs = [n.value for n in ast.walk(fnode) if isinstance(n, (ast.Assign, ast.AnnAssign)) and n.value is not None
+                and norm(n.targets[0] if isinstance(n, ast.Assign) else n.target) == var]
+        from_cookie = bool(defs) and all('flask.request.cookies' in norm(d) for d in defs)
+        nonempty = bool(hits) and all(pc_entails(x[0], ('atom', var)) is True for x in hits)
+        if defs and not from_cookie and depth < 2:
+            # delegated: csrf_key = cls.get_cookie()
+            d = defs[0]
+            if len(defs) == 1 and isinstance(d, ast.Call) and isinstance(d.func, ast.Attribute) \
+                    and isinstance(d.func.value, ast.Name) and d.func.value.id in ('cls', 'self', 'CsrfProtection'):
+                m = find_func(cls, d.func.attr)
+                if m is not None:
+                    inner = {id(x) for f_ in ast.walk(m) if isinstance(f_, (ast.FunctionDef, ast.Lambda)) and f_ is not m
+                             for x in ast.walk(f_)}
+                    rets = {norm(r.value) for r in ast.walk(m) if isinstance(r, ast.Return) and r.value is not None
+                            and id(r) not in inner}
+                    if len(rets) == 1:
+                        return cookie_value_checked(m, None, rets.pop(), depth + 1)
+        return from_cookie, nonempty
+    keyvar = None
+    if hnew is not None and len(hnew.args) > 1:
+        names = [n_.id for n_ in ast.walk(hnew.args[1]) if isinstance(n_, ast.Name) and n_.id not in ('bytes', 'str')]
+        keyvar = names[0] if names else None
+    if keyvar is None:
+        rep.fail(rid, construct, 'cookie present', 'the HMAC message key is not a local read from the cookie', chk)
+    else:
+        from_cookie, nonempty = cookie_value_checked(chk, hnew, keyvar)
+        if nonempty:
+            rep.ok(rid, construct, 'cookie present')
+        else:
+            rep.fail(rid, construct, 'cookie present',
+                     'some accepting path lacks it: an empty cookie value is accepted', chk)
+        if from_cookie:
+            rep.ok(rid, construct, 'key from cookie')
+        else:
+            rep.fail(rid, construct, 'key from cookie',
+                     f'`{keyvar}` (the HMAC message key) is not read from the request cookie', chk)
     # the value looked up / recorded as "used" is the decoded token the signature is cut from
     salt_src = None
     for n in ast.walk(chk):
-        if isinstance(n, ast.Assign) and norm(n.targets[0]) == 'salt' \
+        if isinstance(n, (ast.Assign, ast.AnnAssign)) and n.value is not None \
+                and norm(n.targets[0] if isinstance(n, ast.Assign) else n.target) == 'salt' \
                 and isinstance(n.value, ast.Subscript) and isinstance(n.value.value, ast.Name):
             salt_src = n.value.value.id
     jtis = []
@@ -538,13 +601,6 @@ def check_csrf_protocol(rep: Report) -> None:
                  f'the re-use lookup/record use jti={jtis} while the signature is verified on '
                  f'`{salt_src}` (percent-decoded): another percent-encoding of the same token is '
                  'accepted again', chk)
-    # csrf_key comes from the request cookie
-    src = [n for n in ast.walk(chk) if isinstance(n, ast.Assign) and norm(n.targets[0]) == 'csrf_key']
-    if src and all('flask.request.cookies' in norm(n.value) for n in src):
-        rep.ok(rid, construct, 'key from cookie')
-    else:
-        rep.fail(rid, construct, 'key from cookie',
-                 'csrf_key is not read from the request cookie', chk)
 
 
 def issued_vs_checked(rep: Report) -> None:
